@@ -136,7 +136,8 @@ pub fn render(word: &[usize], r: &Reference, garbage: bool, nameless_at: Option<
                 text.push_str(&format!("class {name};"));
                 expected.push(name);
             } else if garbage {
-                text.push_str("@ \"u ) !zz");
+                // (a string that ends in a backslash at the line end still ends there: the next line is a line)
+                text.push_str(if m % 2 == 1 { "@ \"u ) !zz" } else { "the path is \"C:\\" });
             } else {
                 text.push_str(&format!("class {name};"));
             }
